@@ -236,7 +236,10 @@ func runFileInput(rep *Report, in FileInput, cfB, cfR *CaseFile) {
 	}
 	for _, f := range in.Faults {
 		if f[0] < len(fc.order) {
-			fc.st.Unavailable[fc.order[f[0]].Cid.KeyString()] = uint64(f[1])
+			// equal blocks share a CID: the first fault listed for a CID decides (as fault_of in Corr/Files.v)
+			if _, dup := fc.st.Unavailable[fc.order[f[0]].Cid.KeyString()]; !dup {
+				fc.st.Unavailable[fc.order[f[0]].Cid.KeyString()] = uint64(f[1])
+			}
 		}
 	}
 	// the root itself must be loadable to obtain a node at all
